@@ -270,6 +270,17 @@ func c15LSCheck(c *C15LS, r *core.Rec) {
 	if !sx.same(xs) || !sy.same(ys) || !sw.same(ws) {
 		r.Fail("lsq-modified", "%s modified its inputs", tag)
 	}
+	// a returned result must not change when the library is used again
+	keep := append([]float64{}, got...)
+	ys2 := make([]float64, n)
+	for i := range ys2 {
+		ys2[i] = 100 - 7*ys[i]
+	}
+	fit.LinearLeastSquares(xs, ys2, ws, terms...)
+	fit.PolynomialRegression(xs, ys2, nil, 1)
+	if !equalF(got, keep) {
+		r.Fail("lsq-result-overwritten", "%s: the returned parameters changed from %v to %v after later fits", tag, keep, got)
+	}
 	var d int
 	if _, err := fmt.Sscanf(c.Basis, "poly%d", &d); err != nil {
 		return
@@ -296,6 +307,12 @@ func c15LSCheck(c *C15LS, r *core.Rec) {
 	}
 	if !sx.same(xs) || !sy.same(ys) || !sw.same(ws) {
 		r.Fail("lsq-modified", "%s modified its inputs", ptag)
+	}
+	keepC := append([]float64{}, res.Coefficients...)
+	f0 := res.F(0.3)
+	fit.PolynomialRegression(xs, ys2, ws, d)
+	if !equalF(res.Coefficients, keepC) || !sameF(res.F(0.3), f0) {
+		r.Fail("lsq-result-overwritten", "%s: Coefficients/F changed after a later fit on other data", ptag)
 	}
 }
 
@@ -503,8 +520,14 @@ func c15LoessCheck(c *C15Loess, r *core.Rec) {
 	}
 	// permutation independence (bitwise): sorted order and, if asked, every permutation
 	check := func(px, py []float64) {
+		bx, by := snapFull(px), snapFull(py)
 		g := fit.LOESS(px, py, c.Degree, c.Span)
 		r.Trans(1)
+		defer func() {
+			if !bx.same(px) || !by.same(py) {
+				r.Fail("loess-modified", "LOESS modified its inputs given in the order xs=%v", bx.bits)
+			}
+		}()
 		for qi, x := range queries {
 			if math.IsNaN(got[qi]) {
 				continue
@@ -516,6 +539,7 @@ func c15LoessCheck(c *C15Loess, r *core.Rec) {
 		}
 	}
 	check(sxs, sys)
+	check(reversed(sxs), reversed(sys))
 	if c.Perms {
 		px, py := make([]float64, n), make([]float64, n)
 		enum.Permutations(n, func(p []int) {
